@@ -14,7 +14,8 @@ open AsmjitVerif AsmjitVerif.Fault
 
 inductive Node where
   | section (id : Nat)
-  | inst (k : Nat) (hasComment : Bool)
+  /-- instruction `k` with its extra register (0 = none), its options and whether it carries an inline comment -/
+  | inst (k : Nat) (extra opts : Nat) (hasComment : Bool)
   | label (id : Nat)
   | align (n : Nat)
   | data (size : Nat)
@@ -25,7 +26,16 @@ inductive Node where
 structure BView where
   nodes : List Node := [.section 0]
   labelCount : Nat := 0
+  /-- the emitter's one-shot state, consumed by the next `_emit`: extra register (`k(k1)` write mask / `rep(ecx)` count; 0 =
+  none), instruction options (`lock()`, `rep()`, ...), inline comment -/
+  pendExtra : Nat := 0
+  pendOpts : Nat := 0
+  pendCmt : Bool := false
   deriving DecidableEq, Repr, Inhabited
+
+/-- what `_emit` leaves of the one-shot state - after a successful call AND after a failed one (`reset_inst_options()`,
+`reset_inline_comment()` before the null check, `reset_extra_reg()` on both paths) -/
+def clearOneShot (v : BView) : BView := { v with pendExtra := 0, pendOpts := 0, pendCmt := false }
 
 structure BCaps where
   /-- capacity of `CodeHolder::_label_entries` -/
@@ -42,7 +52,10 @@ structure BSt where
   deriving DecidableEq, Repr, Inhabited
 
 inductive BOp where
-  | emit (k : Nat) (comment : Bool)
+  | emit (k : Nat)
+  | setExtra (r : Nat)
+  | setOpts (bits : Nat)
+  | setComment
   | newLabel
   | codeLabel
   | bind (l : Nat)
@@ -66,16 +79,18 @@ def addNode (o : Oracle) (s : BSt) (n : Node) : Oracle × BSt × Err :=
   | (true, o1) => (o1, s, .oom)
   | (false, o1) => (o1, { s with v := { s.v with nodes := s.v.nodes ++ [n] } }, .ok)
 
-/-- `BaseBuilder::_emit` -/
-def emit (o : Oracle) (s : BSt) (k : Nat) (cmt : Bool) : Oracle × BSt × Err :=
+/-- `BaseBuilder::_emit`: the one-shot state is read, the node is requested, options and comment are reset BEFORE the null
+check and the extra register on both paths: a failed `_emit` leaves no pending state behind -/
+def emit (o : Oracle) (s : BSt) (k : Nat) : Oracle × BSt × Err :=
+  let cl := clearOneShot s.v
   match req o with                        -- `_builder_arena.alloc_oneshot(node size)`
-  | (true, o1) => (o1, s, .oom)
+  | (true, o1) => (o1, { s with v := cl }, .oom)
   | (false, o1) =>
-    if cmt then
+    if s.v.pendCmt then
       match req o1 with                   -- `_builder_arena.dup(comment)`: a null result is stored as "no comment"
-      | (true, o2) => (o2, { s with v := { s.v with nodes := s.v.nodes ++ [.inst k false] } }, .ok)
-      | (false, o2) => (o2, { s with v := { s.v with nodes := s.v.nodes ++ [.inst k true] } }, .ok)
-    else (o1, { s with v := { s.v with nodes := s.v.nodes ++ [.inst k false] } }, .ok)
+      | (true, o2) => (o2, { s with v := { cl with nodes := cl.nodes ++ [.inst k s.v.pendExtra s.v.pendOpts false] } }, .ok)
+      | (false, o2) => (o2, { s with v := { cl with nodes := cl.nodes ++ [.inst k s.v.pendExtra s.v.pendOpts true] } }, .ok)
+    else (o1, { s with v := { cl with nodes := cl.nodes ++ [.inst k s.v.pendExtra s.v.pendOpts false] } }, .ok)
 
 /-- `CodeHolder::new_label_id` -/
 def codeLabel (o : Oracle) (s : BSt) : Oracle × BSt × Err :=
@@ -143,7 +158,10 @@ def comment (o : Oracle) (s : BSt) (len : Nat) : Oracle × BSt × Err :=
 
 def bstep (op : BOp) (o : Oracle) (s : BSt) : Oracle × BSt × Err :=
   match op with
-  | .emit k c => emit o s k c
+  | .emit k => emit o s k
+  | .setExtra r => (o, { s with v := { s.v with pendExtra := r } }, .ok)
+  | .setOpts b => (o, { s with v := { s.v with pendOpts := s.v.pendOpts ||| b } }, .ok)
+  | .setComment => (o, { s with v := { s.v with pendCmt := true } }, .ok)
   | .newLabel => newLabel o s
   | .codeLabel => codeLabel o s
   | .bind l => bind o s l
@@ -156,7 +174,10 @@ def bstep (op : BOp) (o : Oracle) (s : BSt) : Oracle × BSt × Err :=
 run without failures -/
 def bspec (op : BOp) (v : BView) : BView × Err :=
   match op with
-  | .emit k c => ({ v with nodes := v.nodes ++ [.inst k c] }, .ok)
+  | .emit k => ({ clearOneShot v with nodes := v.nodes ++ [.inst k v.pendExtra v.pendOpts v.pendCmt] }, .ok)
+  | .setExtra r => ({ v with pendExtra := r }, .ok)
+  | .setOpts b => ({ v with pendOpts := v.pendOpts ||| b }, .ok)
+  | .setComment => ({ v with pendCmt := true }, .ok)
   | .newLabel => ({ v with labelCount := v.labelCount + 1 }, .ok)
   | .codeLabel => ({ v with labelCount := v.labelCount + 1 }, .ok)
   | .bind l =>
